@@ -82,6 +82,8 @@ def run_check(prop: str, tier: str = "quick", seed: int = 0, replay: str | None 
     work.mkdir(parents=True, exist_ok=True)
     log = (lambda *a: print(*a, flush=True)) if verbose else (lambda *a: None)
     rng = random.Random(seed)
+    import soundevent as _se
+    log(f"[{prop}] source under test: {os.path.dirname(_se.__file__)}")
 
     enum_stats = {"states": 0, "transitions": 0, "depth": 0, "cmds": [], "exhaustive": True, "initial": 0}
     cases: list[dict] = []
@@ -193,7 +195,7 @@ def run_check(prop: str, tier: str = "quick", seed: int = 0, replay: str | None 
     if nviol > 10:
         print(f"[{prop}] ... {nviol} rejected (observation, clause) pairs in total")
 
-    if not replay:
+    if not replay and not os.environ.get("VERIF_SRC"):   # evidence only from runs against /repo itself
         write_evidence(chk, prop, tier, seed, obs, enum_stats, nviol, known_hits, time.time() - t0)
     if not keep_work and nviol == 0:
         shutil.rmtree(work, ignore_errors=True)
